@@ -4,6 +4,30 @@ manifest stays valid while checks are added)."""
 import json
 
 claimed = {
+ "C10": dict(level="model_checking", engine="H+S",
+   text="stateless model checking of the real Client on the rewritten library: every event history up to depth 4/5 (each event run to quiescence, all free thread choices, two epilogues) and 10 concurrent scenarios explored over every interleaving within preemption bound 2/3 plus environment deviations (pool object choice, map order); exactly-once, argument class, Start-error-implies-no-handler, Do-returns-after-handler and deadlock freedom are evaluated on every execution",
+   note="tickerCollector, real sockets and real time are replaced by injected doubles; responses obey causality; mutex release is not a scheduling point; races inside one step are invisible to the cooperative scheduler (see the -race pass); bounds: history depth, preemption bound, 2 environment deviations; 3 transaction ids",
+   technique="stateless model checking of the implementation: controlled scheduler + preemption-bounded DFS over all interleavings and environment answers", ref="DESIGN.md section 2 C10"),
+ "C11": dict(level="model_checking", engine="H+S",
+   text="every history up to depth 5/6 over Start / caller reuse / SetRTO / ticks at, just after and far beyond each deadline / response / write fault / Close on a virtual clock, for several RTOs and with/without retransmission, full-retransmission histories for request sizes 20..65532 bytes, two concurrent scenarios; each write is compared byte for byte with the snapshot taken at Start and timed against the deadlines",
+   note="tickerCollector, real sockets and real time are replaced by injected doubles; responses obey causality; mutex release is not a scheduling point; races inside one step are invisible to the cooperative scheduler (see the -race pass); attempt limits other than 0 and 7 are not reachable through the public API and are not explored",
+   technique="explicit-state enumeration of event histories on the real client under a controlled scheduler and virtual clock", ref="DESIGN.md section 2 C11"),
+ "C12": dict(level="model_checking", engine="H+S",
+   text="every history up to depth 4/5 over three one-bit-apart ids, responses/duplicates, unknown ids and four kinds of undecodable datagrams with pool Get branching over recycled objects, with and without fallback handler; three concurrent scenarios incl. probe transactions on recycled objects; one 2000-transaction history; every handler invocation is checked for id, datagram identity and single consumption",
+   note="tickerCollector, real sockets and real time are replaced by injected doubles; responses obey causality; mutex release is not a scheduling point; races inside one step are invisible to the cooperative scheduler (see the -race pass); 500 concurrent transactions and random ids are not attempted",
+   technique="stateless model checking of the implementation with environment-choice exploration (pool recycling) under a controlled scheduler", ref="DESIGN.md section 2 C12"),
+ "C15": dict(level="model_checking", engine="H+S",
+   text="9 option sets x every history up to depth 4/5 ending in one or several Close calls, 8 concurrent Close scenarios x 4 option sets over every interleaving within preemption bound 2/3; Close result, goroutine exit, collector/connection close counts, silence after Close and ErrClientClosed from later calls are evaluated on every execution; deadlock = no enabled thread",
+   note="tickerCollector, real sockets and real time are replaced by injected doubles; responses obey causality; mutex release is not a scheduling point; races inside one step are invisible to the cooperative scheduler (see the -race pass); the data-race clause is covered only by the free-running -race pass over the same scenario bodies (sampled schedules, reported separately)",
+   technique="stateless model checking of the implementation: controlled scheduler + preemption-bounded DFS", ref="DESIGN.md section 2 C15"),
+ "C14": dict(level="model_checking", engine="S",
+   text="all programs of 2 threads x <=2 operations and 3 threads x 1 operation over 7 agent operations x 3 initial tables x 3 handler re-entrancy modes, every interleaving (preemption bound 3 quick, unbounded thorough) on the real Agent; each recorded history is checked for linearizability against the transaction-table model by brute force, and for deadlock",
+   note="mutex release is not a scheduling point; the data-race clause is covered only by the free-running -race pass (sampled schedules); 2..16 goroutines of the quantifier are covered up to 3",
+   technique="stateless model checking of the implementation + brute-force linearizability checking of every explored history", ref="DESIGN.md section 2 C14"),
+ "C18": dict(level="model_checking", engine="H+S",
+   text="on the rewritten library with a model pool whose Get branches over every pooled object and a miss: all reuse histories use;put;use[;put;use] over 6 key lengths x all scripts of <=2/3 operations, all free histories to depth 5/6 over two live objects, and 2-3 concurrent pool users over every interleaving within the preemption bound; every Sum is compared with RFC 2104 written out over the hash function",
+   note="messages up to a few hundred bytes in chunks of 0/1/63/65; 4096-byte messages and random chunkings are not attempted; races inside one call are invisible to the cooperative scheduler",
+   technique="explicit-state enumeration of reuse histories with environment-choice exploration (pool object selection) and preemption-bounded DFS", ref="DESIGN.md section 2 C18"),
  "C03": dict(level="model_checking", engine="H",
    text="explicit enumeration of every building-operation history up to depth 4 (quick) / 5 (thorough) over a 35-operation alphabet from 12 start states, each executed on a real Message and checked against the reference parser/encoder after its last step (all shorter histories are enumerated too, so every intermediate state is checked); the coherence of the three length representations is a property of histories, which is exactly what is enumerated",
    note="attribute values come from fixed patterns; sizes stay within the 16-bit length field by construction (the property's precondition); plus Add of every length 0..3000 and the size boundary",
